@@ -50,6 +50,9 @@ func (e *Engine) CellOf(st *State, obj PtrV, field string) (AVal, bool) {
 	if !ok || c.V == nil {
 		return nil, false
 	}
+	if _, isM := c.V.(entryMarker); isM {
+		return nil, false
+	}
 	return c.V, true
 }
 
@@ -134,4 +137,27 @@ func (e *Engine) HavocObject(st *State, p PtrV) {
 		}
 	}
 	delete(st.dirty, p.Key)
+}
+
+// entryMarker marks a cell that has not been written since the root's entry.
+type entryMarker struct{}
+
+func (entryMarker) key() string { return "entry-marker" }
+
+// MarkFresh marks cells so that IsFreshCell can tell whether they were written.
+func (e *Engine) MarkFresh(st *State, obj PtrV, fields []string) {
+	for _, f := range fields {
+		st.cells[obj.Key+"."+f] = Cell{obj, f, entryMarker{}}
+	}
+}
+
+// IsFreshCell: the cell still holds its entry marker (never written in this run),
+// or is not tracked at all.
+func (e *Engine) IsFreshCell(st *State, obj PtrV, field string) bool {
+	c, ok := st.cells[obj.Key+"."+field]
+	if !ok || c.V == nil {
+		return true
+	}
+	_, isM := c.V.(entryMarker)
+	return isM
 }
